@@ -965,7 +965,7 @@ class TorControlProtocol(LineOnlyReceiver):
 
     def _is_end_line(self, line):
         "for FSM"
-        return line.strip() == '.'
+        return line == '.'
 
     def _is_not_end_line(self, line):
         "for FSM"
@@ -1014,6 +1014,9 @@ class TorControlProtocol(LineOnlyReceiver):
 
     def _accumulate_multi_response(self, line):
         "for FSM"
+        if line.startswith('.'):
+            # undo the dot-stuffing of data lines (control-spec 2.3)
+            line = line[1:]
         if self.command and self.command[2] is not None:
             self.command[2](line)
 
